@@ -2095,7 +2095,10 @@ def retypeNodeOk (S : Schema) (d : Node) (pos : Nat) (ty : Option TypeId) (marks
       pair-alignment;
     * `set_node_markup` of a non-leaf node to a non-leaf type (the complement is finding C04-leaf-retype
       and the Fitter path) with a canonical mark set: pair-alignment;
-    * every other operation: `FamilyGuard` of the steps it recorded. -/
+    * every other operation: `FamilyGuard` of the steps it recorded — discharged further down for
+      `set_block_type` to a plain type (`setBlockType_residual`: same-type guard and pair-alignment left),
+      the node-level operations (`nodeOps_residual`: `NodeOpGuard` on the operation's arguments), deletions
+      (`delete_residual`) and, in part, `replace` with a non-empty slice (`replace_residual_partial`). -/
 def OpResidual (S : Schema) (op : Op) (tr tr1 : Tr) : Prop :=
   match op with
   | .lift a b depth _ => nodeRangeEnds tr.doc a b depth ∧
